@@ -928,6 +928,14 @@ class SgzReader(object):
         -------
         header_array : numpy.ndarray of int32, shape (tracecount)
         """
+        if not self.structured:
+            # variant_headers holds the arrays gen_trace_header() indexes by trace ordinal (holes filtered out).
+            # Read the padded array on its own so that neither use depends on which one came first.
+            offset = self.segy_traceheader_template[segyio.tracefield.TraceField(tracefield)]
+            if not isinstance(offset, FileOffset):
+                raise KeyError(tracefield)
+            buffer = self.file.read_range(self.file, offset, self.header_entry_length_bytes)
+            return np.frombuffer(buffer, dtype=np.int32)
         self.read_variant_headers(include_padding=True, tracefields=[segyio.tracefield.TraceField(tracefield)])
         return self.variant_headers[tracefield]
 
